@@ -30,9 +30,23 @@ func (m *c14Mon) Step(w *world, ev event, outs []outMsg) (string, string) {
 	want := m.exp[ev.Name]
 	// heartbeats among the outputs, in order
 	var hbs []outMsg
+	earlier := w.outs[:len(w.outs)-len(outs)]
 	for _, o := range outs {
 		if !wellFormed(o.Msg) {
 			return "malformed-outbound", show(o.Msg)
+		}
+		if strings.HasPrefix(ev.Name, "ResendRequest") {
+			// a retransmission (byte-identical to something sent before, C10) is not an answer to anything
+			dup := false
+			for _, e := range earlier {
+				if string(e.Msg) == string(o.Msg) {
+					dup = true
+					break
+				}
+			}
+			if dup {
+				continue
+			}
 		}
 		if mtype(o.Msg) == "0" {
 			if _, has := get(o.Msg, "112"); has { // unsolicited (periodic) heartbeats carry no TestReqID
@@ -92,6 +106,9 @@ func c14Cfgs(tier string) []*histCfg {
 			event{Name: "Heartbeat", Do: func(w *world) { w.in(w.msg("0")) }},
 			event{Name: "App(D)", Do: func(w *world) { w.in(w.msg("D", "11=x")) }},
 			event{Name: "ResendRequest(1,1)", Do: func(w *world) { w.in(w.msg("2", "7=1", "16=1")) }},
+			// everything sent so far is asked for again: earlier answers, and after a re-logon the old Logout and
+			// Logon, pass through the outgoing path a second time
+			event{Name: "ResendRequest(1,0)", Do: func(w *world) { w.in(w.msg("2", "7=1", "16=0")) }},
 			event{Name: "local Send(app)", Do: func(w *world) { _ = w.s.Send(fixgen.NewMarketDataRequest()) }},
 			// inbound silence just long enough for the session to send its own TestRequest: the peer's
 			// TestRequest that follows crosses it on the wire
